@@ -136,11 +136,11 @@ theorem verifyTxnHard_hours {t : Txn} {ht : Nat} {uxIn : List Ux} (h : verifyTxn
 /-- PARTIAL (full statement below): for every transaction of every accepted block, if the output
 hours do not overflow 64 bits, they do not exceed the hours its inputs have accrued at the previous
 block's time — an input whose accrual reports the documented legacy overflow counting as zero. -/
-theorem block_txn_hours_partial {s s' : State} {b g : Block} (harb : s.cfg.arb = false)
+theorem block_txn_hours_partial {s s' : State} {b g : Block} (hinj : HashInj b.txns)
     (hg : s.chain.head? = some g) (h : execSigned s b = .ok s') :
     ∀ t ∈ b.txns, ∃ uxIn hin, getArray s.unspent t.ins = .ok uxIn ∧
       hoursInLegacy (headTime s) uxIn 0 = .ok hin ∧ (natHoursOut t < 2^64 → natHoursOut t ≤ hin) := by
-  obtain ⟨_, hv, _⟩ := accepted_block_facts harb hg h
+  obtain ⟨hv, _⟩ := accepted_block_facts hinj hg h
   intro t ht
   have hvt := hv t ht
   unfold verifyBlockTxn at hvt
